@@ -112,23 +112,26 @@ PLANS = {
     },
     "C12": {
         "harness": ["diskdiff"],
-        "drivers": disk_drivers("log", ["RECOVER", "RECOVER_APPEND", "LOGPROG"], ["C12"]),
+        "drivers": disk_drivers("log,kill", ["RECOVER", "RECOVER_APPEND", "LOGPROG"], ["C12"]),
         "rule": "programs of append/append-batch/truncate/compact/discard/close+reopen on the real persistentLog (30 x length 3 with "
                 "every byte cut, then random longer ones); every crash image (file cut at each byte of the write; tmp file at each "
                 "prefix, before/after rename; before/after truncate) is materialised and reopened with NewLog+Open+Replay; the result "
                 "is checked against the property on the implementation and against the model's recover; RECOVER_APPEND continues "
-                "after recovery. distinct_nontrivial = distinct images/programs with at least one entry beyond the placeholder",
+                "after recovery; PLUS a kill sweep: each operation (append batch, truncate, compact, discard, compact+truncate) "
+                "runs in a child process killed by `strace -e inject=...:signal=SIGKILL:when=N` on entry to its N-th "
+                "write/rename/unlink/mkdir/truncate system call, for every N, and the directory is reopened. distinct_nontrivial = distinct images/programs with at least one entry beyond the placeholder",
         "nontrivial": lambda l: l.startswith(("RECOVER", "LOGPROG")) and "=> OK 0 " not in l,
         "assumptions": ["process-death crash model: a write leaves a byte prefix; truncate and rename are atomic; fsync is irrelevant; no media corruption",
                         "record payloads are shorter than 2 GiB (int32 length header)"],
     },
     "C13": {
         "harness": ["diskdiff"],
-        "drivers": disk_drivers("state,snap", ["READSTATE", "SNAPLATEST", "STATEREC"], ["C13"]),
+        "drivers": disk_drivers("state,snap,kill", ["READSTATE", "SNAPLATEST", "STATEREC"], ["C13"]),
         "rule": "SetState sequences with the temporary file cut at every byte, before/after rename; snapshot programs "
                 "(NewSnapshotFile, 0-3 writes, Close|Discard; 3, 12 and 41 snapshots) with an image after every step plus synthetic "
                 "intermediate states of NewSnapshotFile; each image reopened with the real constructors (and NewRaft) and compared "
-                "with the model's recover_state / latest(recover_snap). distinct_nontrivial = distinct case lines",
+                "with the model's recover_state / latest(recover_snap); PLUS the kill sweep (SetState, snapshot write+Close|Discard "
+                "killed on entry to every file-system call). distinct_nontrivial = distinct case lines",
         "nontrivial": lambda l: l.startswith(("READSTATE", "SNAPLATEST")),
         "assumptions": ["process-death crash model (rename atomic, directory entries durable)",
                         "sort.Slice leaves an input without inversions unchanged (the comparator in directories() always returns false); "
